@@ -36,7 +36,7 @@ func (c Config) options() px.OrderedMap {
 }
 
 func (c Config) gallina() string {
-	return fmt.Sprintf("(mkopts %s %s %d%%N) (mkcaps %s %s %d%%N)", lib.GBool(c.Rich), lib.GBool(c.LocalRef), c.Dedup,
+	return fmt.Sprintf("(mkopts %s %s %d%%N), (mkcaps %s %s %d%%N)", lib.GBool(c.Rich), lib.GBool(c.LocalRef), c.Dedup,
 		lib.GBool(c.Bin), lib.GBool(c.CK), c.Thr)
 }
 
@@ -303,5 +303,5 @@ func eventsGallina(evs []event) string {
 	for i, e := range evs {
 		es[i] = e.gallina()
 	}
-	return lib.GList(es, "event str")
+	return lib.GList(es, "@event str")
 }
